@@ -41,7 +41,9 @@ ASSUMPTIONS = [
 ]
 
 URN_NS = "urn:ex:vocab:"
-NS_POOL = [gen.EX, gen.EX_DEEP, gen.EX_DEEPER, gen.OTHER, URN_NS]
+HASH_NS = "http://ex.org/onto#"           # predicates onto#p<i> ...
+HASH_DEEP_NS = "http://ex.org/onto#addr/"  # ... and onto#addr/p<i>: a '/' after the '#'
+NS_POOL = [gen.EX, gen.EX_DEEP, gen.EX_DEEPER, gen.OTHER, URN_NS, HASH_NS, HASH_DEEP_NS]
 
 
 def generate(rng, tier, index):
